@@ -10,15 +10,22 @@ echo "# seed | property | check exit (1 = VIOLATION reported = detected) | repo 
 for d in /verif/seeded/C*/; do
   id=$(basename $d)
   prop=$(python3 -c "import json;print(json.load(open('$d/meta.json'))['property'])")
+  # checks to run: the property's own, or the list in meta.json "check_with" (a change can be visible to the
+  # check of a neighbouring property only, e.g. a cache defect that needs two clients)
+  checks=$(python3 -c "import json;m=json.load(open('$d/meta.json'));print(' '.join(m.get('check_with') or [m['property']]))")
   pf=$d/patch.diff; [ -f $d/patch-rebased.diff ] && pf=$d/patch-rebased.diff
   cd /repo
   if ! git apply --check "$pf" 2>/dev/null; then echo "$id | $prop | patch does not apply to the current tree" >> $out; continue; fi
   git apply "$pf"
   cd /verif
-  timeout 1500 ./check $prop $tier > /tmp/matrix-$id.out 2>&1
-  code=$?
+  line="$id | $prop |"
+  for c in $checks; do
+    timeout 1500 ./check $c $tier > /tmp/matrix-$id-$c.out 2>&1
+    code=$?
+    nv=$(grep -a -c "^VIOLATION" /tmp/matrix-$id-$c.out)
+    line="$line $c: exit=$code violations_printed=$nv;"
+  done
   git -C /repo checkout -- .
-  nv=$(grep -a -c "^VIOLATION" /tmp/matrix-$id.out)
-  echo "$id | $prop | exit=$code violations_printed=$nv" >> $out
+  echo "$line" >> $out
 done
 cat $out
